@@ -10,6 +10,16 @@ NOT_APPLICABLE = {
 for k in ['C01','C02','C03','C04','C05','C06','C07','C10','C11','C12','C13','C14','C15','C16','C17','C18','C19','C20']:
     NOT_APPLICABLE.setdefault(k, UNDER)
 CHECKS = {
+ 'C13': {
+  'text': 'Verus proves the real ConcurrentNodeIds::new / next against an interference-tolerant contract for atomics: fetch_add returns a ticket (issued(v)) and nothing is assumed about what other threads do in between; next returns Ok(id) only with a ticket (a cursor ticket s with available.select(s) = id, or a counter ticket id), id is not in the set of used ids, and the only error is DatabaseFull. A pure lemma shows that different tickets give different ids (select injective; recycled ids < initial counter <= fresh ids). Because the proof never uses the order of other threads it covers every interleaving; replacing fetch_add by load+store loses the ticket and fails the postcondition.',
+  'note': 'Assumes atomicity of fetch_add (no value issued twice before wrap) and rank/select properties of roaring; rayon scheduling itself is trusted.',
+  'technique': 'Verus postconditions on extracted real functions with ghost ticket facts for atomics',
+ },
+ 'C15': {
+  'text': 'Verus proves on the real target_n_trees: an explicit n_trees is returned unchanged; the automatic count is the documented formula (at least 1) or, under the uninterpreted hysteresis test, the current number of roots when that is larger; no overflow or division by zero for dimensions >= 1. fit_in_descendant(n) <=> n <= split_after (or dimensions).',
+  'note': 'dimensions >= 1 is a precondition (Writer::new does not check it); the f64 ratio test is uninterpreted.',
+  'technique': 'Verus postconditions + overflow obligations on extracted real functions',
+ },
  'C05': {
   'text': 'Verus proves the item-store contracts of the real Writer/Reader functions (add_item, append_item, del_item, clear, contains_item, item_vector, iter, is_empty, ItemIter::next, item_leaf) over an abstract database view Map<(index,kind,id),value>: add writes exactly the leaf new_leaf(v) and the mark; del_item returns whether the key existed and removes exactly it; clear leaves no key of the index; item_vector / iteration return the decoded stored vector cut to the declared dimension, iteration in ascending id order, each key once; emptiness agrees with the key set. Presence at every point of a history is then induction over these per-operation postconditions.',
   'note': 'Vector codec enc/dec is uninterpreted here (bit-exactness of the f32 codec and sign pattern of the quantised codec are the Kani units of C12/C16); build-does-not-touch-items is part of the build chain units; representation invariant items_are_leaves is used by is_empty.',
